@@ -75,7 +75,7 @@ Init ==
   /\ (Canon => \A t \in 1..(Len(ent)-1) : Code(ent[t]) <= Code(ent[t+1]))
   /\ dir \in Dirs
   /\ T \in 0..TMax
-  /\ (dir = "rel" => (D = 2 /\ T < RelDen))
+  /\ (dir = "rel" => (D = 2 /\ T < 2 * RelDen))
   /\ (dir # "rel" => T <= Total(ent))
   /\ cap \in Caps
   /\ live = DOMAIN ent
